@@ -9,6 +9,7 @@ import (
 	"strconv"
 	"strings"
 	"sync"
+	"time"
 
 	"github.com/lidofinance/dc4bc/client/types"
 	sif "github.com/lidofinance/dc4bc/fsm/state_machines/signing_proposal_fsm"
@@ -95,6 +96,9 @@ type SignCfg struct {
 	// LagWhole: a lagging node's poll action consumes everything outstanding (one real tick over
 	// the whole backlog) instead of one message - coarser, so that ALL nodes can lag
 	LagWhole bool
+	// ProposerAhead: the proposer's clock is this far ahead of the answering nodes' (the proposal
+	// is stamped by the proposer's node, every answer by the answering node)
+	ProposerAhead time.Duration
 }
 
 var junkSig = bytes.Repeat([]byte{0x42}, 64)
@@ -265,6 +269,15 @@ func (sw *SignWorld) Model(cfg SignCfg, check func(k *worldx.Worker, s *worldx.S
 						continue // the API refuses a proposal while the proposer's round is busy
 					}
 					m := k.W.ProposalMessage(p, sw.Round, b.ID, b.Tasks)
+					if cfg.ProposerAhead != 0 {
+						var req requests.SigningBatchProposalStartRequest
+						if err := json.Unmarshal(m.Data, &req); err != nil {
+							return nil, err
+						}
+						req.CreatedAt = world.Clock().Add(cfg.ProposerAhead)
+						nd := k.W.Nodes[p]
+						m = world.SignedMessage(sw.Round, m.Event, world.MustJSON(req), nd.Name, nd.KeyPair.Priv, "")
+					}
 					c := k.PostMsg(s, m, fmt.Sprintf("propose %s by %d", b.ID, p))
 					if cfg.Outsider {
 						for _, j := range outsiderJunk(sw.Round, b, k.W.Nodes[0].Name) {
